@@ -396,12 +396,21 @@ def run_shape(ctx):
         b = f.body
         K = "%s:%s:" % (rule, f.id)
         X = Local(2)
-        roots = Or(Var("roots"), Call("nth_root_powers"))
+        # the node table: whatever nth_root_powers(len) returned (inlined, or through a local of any name)
+        def roots(e):
+            if Call("nth_root_powers")(e):
+                return True
+            if isinstance(e, tuple) and e[0] == "phi":
+                ie = g.eb.init_expr(e[1])
+                return ie is not None and Call("nth_root_powers")(ie)
+            return False
         mas = calls_named(ctx, f, "mul_assign")
         aas = calls_named(ctx, f, "add_assign")
         item = Field(Call("next"), name="0", variant="Some")
-        uj = [m for m in mas if g.loop_of(m[0]) is not None and Field(item, name="0")(m[1][2][0]) and Var("d")(m[1][2][1])]
-        lj = [m for m in mas if Var("l")(m[1][2][0]) and Var("d")(m[1][2][1])]
+        # `l *= d` and `*u_j *= d`: identified by structure - both multiply by the same re-assigned local d
+        uj = [m for m in mas if g.loop_of(m[0]) is not None and Field(item, name="0")(m[1][2][0]) and AnyLocal()(m[1][2][1])]
+        lj = [m for m in mas if AnyLocal()(m[1][2][0]) and m[1][2][0][0] == "phi" and uj and m[1][2][1] == uj[0][1][2][1]]
+        LV = Same(lj[0][1][2][0]) if len(lj) == 1 else (lambda e: False)
         good = len(uj) == 1 and len(lj) == 1 and len(aas) == 1
         detail = "expected `l *= d`, `*u_j *= d` and one `*u_j += ..`"
         if good:
@@ -413,7 +422,7 @@ def run_shape(ctx):
             oitem, osrc = item_of(outer[1], b, g)
             iitem, isrc = item_of(inner[1], b, g)
             good = osrc is not None and Call("zip", Agg("RangeFrom", Lit(1)), Call("index", roots, Agg("RangeFrom", Lit(1))))(osrc) and adapters_in(osrc) == [] and \
-                isrc is not None and Call("zip", Var("u"), Local(1))(isrc) and adapters_in(isrc) == []
+                isrc is not None and Call("zip", AnyLocal(), Local(1))(isrc) and adapters_in(isrc) == []
             detail = "outer loop is not (1..).zip(&roots[1..]) / inner loop is not u.iter_mut().zip(polynomials): %s / %s" % (
                 fmt(osrc)[:100] if osrc else None, fmt(isrc)[:100] if isrc else None)
         if good:
@@ -431,7 +440,7 @@ def run_shape(ctx):
             detail = "d is not roots[0] - x, then wn_i - x: %s" % [fmt(dd)[:80] for dd in ddefs]
         if good:
             a = aas[0][1]
-            t = Bin("Mul", Var("l"), S(wn))
+            t = Bin("Mul", LV, S(wn))
             yi = Field(Call("get", Mentions(Field(iitem, name="1")), Field(oitem, name="0")), name="0", variant="Some")
             good = Field(iitem, name="0")(a[2][0]) and Bin("Mul", t, S(yi))(a[2][1]) and aas[0][0] in inner[1] and b.dominates(uj[0][0], aas[0][0])
             detail = "*u_j += (l * wn_i) * poly[i] (after the multiplication by d) not found: %s" % fmt(a)[:200]
@@ -440,8 +449,15 @@ def run_shape(ctx):
         # initial values and final scaling
         fe = calls_named(ctx, f, "for_each")
         neg = [e for e in g.edges if e.cond[0] == "rel" and e.cond[1] == "Gt" and Len(roots)(e.cond[2]) and Lit(1)(e.cond[3])]
-        good = len(fe) == 1 and Var("u")(fe[0][1][2][0]) and adapters_in(fe[0][1]) == [] and len(neg) == 1 and Mentions(Call("inv_pow2", Len(roots)))(("t",) + tuple(
-            dd[0] for dd in phi_defs(g, [x for x in walk(fe[0][1]) if isinstance(x, tuple) and x[0] == "phi" and x[2] == "num_roots_inv"][0][1])))
+        good = len(fe) == 1 and 'isrc' in dir() and isrc is not None and fe[0][1][2][0] == isrc[2][0] and adapters_in(fe[0][1]) == [] and len(neg) == 1
+        if good:
+            # the closure multiplies every result by a captured value whose definitions are inv_pow2(n) and its negation
+            cl = fe[0][1][2][1]
+            caps = [x for x in (cl[2] if cl[0] == "closure" else ()) if isinstance(x, tuple) and x[0] == "phi"]
+            good = len(caps) == 1
+            if good:
+                ds = [dd[0] for dd in phi_defs(g, caps[0][1])]
+                good = len(ds) == 2 and any(Call("inv_pow2", Len(roots))(dd) for dd in ds) and any(Un("Neg", Same(caps[0]))(dd) for dd in ds)
         req(ctx, rule, K + "scaling", good, "every u_j *= (n > 1 ? -1/n : 1/n)", "the final scaling by +-1/n over all results is missing or wrong", loc=f.loc)
     except (Skip, IndexError):
         ctx.bad(rule, "R-C10.S:poly_eval_lagrange_batched:shape", "unexpected shape of poly_eval_lagrange_batched", kind="anchor")
@@ -466,8 +482,8 @@ def run_shape(ctx):
             kitem, ksrc = item_of(kl[1], b, g)
             val = st[0][3]
             good = ksrc is not None and Agg("Range", Local(2), Len(Local(1)))(ksrc) and kitem(st[0][2]) and \
-                not Mentions(Index(Local(1), kitem))(val) and Mentions(Call("inv", Var("y_denominator")))(val) and Mentions(Var("y_numerator"))(val) and \
-                Mentions(Un("Neg", Index(Var("w"), kitem)))(val)
+                not Mentions(Index(Local(1), kitem))(val) and Mentions(Call("inv", AnyLocal()))(val) and \
+                Mentions(Un("Neg", Index(AnyLocal(), kitem)))(val)
             # the numerator/denominator loop reads polynomial[..k] only
             ym = [c for bi, c in calls_named(ctx, f, "enumerate") if Mentions(Local(1))(c)]
             good = good and len(ym) == 1 and Mentions(Call("index", Local(1), Agg("RangeTo", kitem)))(ym[0])
